@@ -450,8 +450,13 @@ fn run_blocking(case: &Case) -> Result<Obs, String> {
     r
 }
 
-fn idem_patterns(k: usize) -> Vec<Vec<bool>> {
-    (0..(1u32 << k)).map(|m| (0..k).map(|i| m & (1 << i) != 0).collect()).collect()
+fn idem_patterns(k: usize, all: bool) -> Vec<Vec<bool>> {
+    let every: Vec<Vec<bool>> = (0..(1u32 << k)).map(|m| (0..k).map(|i| m & (1 << i) != 0).collect()).collect();
+    if all || k < 3 {
+        return every;
+    }
+    // quick, k = 3: nobody, everybody, and the two alternating patterns (keeps the quick tier < 60 s on 2 cores)
+    vec![vec![false; 3], vec![true; 3], vec![true, false, true], vec![false, true, false]]
 }
 
 fn cases(thorough: bool) -> Vec<Case> {
@@ -460,7 +465,7 @@ fn cases(thorough: bool) -> Vec<Case> {
     let before_reps = if thorough { 8 } else { 3 };
     for ctrl in if thorough { vec![false, true] } else { vec![false] } {
     for k in 1..=3usize {
-        for idem in idem_patterns(k) {
+        for idem in idem_patterns(k, thorough) {
             // after all requests were parked
             for answered in 0..k {
                 for answer_last in if thorough && answered > 0 { vec![false, true] } else { vec![false] } {
@@ -519,7 +524,12 @@ fn main() {
         }
         r.finish_replay();
     }
-    let all = cases(r.tier().is_thorough());
+    let mut all = cases(r.tier().is_thorough());
+    // `--only-early-raw N`: triage aid - only the raw-byte faults with timings Before / OnFirst, each N times
+    if let Some(n) = r.args.extra_value("--only-early-raw").and_then(|s| s.parse::<usize>().ok()) {
+        let sel: Vec<Case> = all.iter().filter(|c| matches!(c.fault, Fault::Raw(_)) && c.timing != Timing::After && c.rep == 0).cloned().collect();
+        all = (0..n).flat_map(|rep| sel.iter().cloned().map(move |mut c| { c.rep = rep; c })).collect();
+    }
     let stop = AtomicBool::new(false);
     let jobs = r.args.jobs.min(16);
     let rr = &r;
@@ -588,7 +598,7 @@ fn main() {
     r.set_exhaustive(r.counters.get("cases_skipped_after_first_violation") == 0);
     r.set_rule("runs in which at least one in-flight request was failed by the dying connection (distinct (idempotence pattern, answered prefix, fault, timing) tuples)");
     r.assume("client-internal task scheduling is whatever the OS produces (engine E-MOCK); whether the bytes written before an RST are still read by the client is the kernel's choice, so a completely answered request may complete Ok or fail");
-    r.assume("no client-side request timeout; default retry policy, default load balancing (token-aware, plan [A, B]); pool of one connection per node; all 2^k idempotence patterns per k; thorough also answers the LAST j requests and also makes A the contact point / control-connection node; the before-timing is repeated 3 (quick) / 8 (thorough) times because its outcome depends on the client's own race (sampled)");
+    r.assume("no client-side request timeout; default retry policy, default load balancing (token-aware, plan [A, B]); pool of one connection per node; all 2^k idempotence patterns per k (quick, k = 3: the 4 patterns FFF, TTT, TFT, FTF); thorough also answers the LAST j requests and also makes A the contact point / control-connection node; the before-timing is repeated 3 (quick) / 8 (thorough) times because its outcome depends on the client's own race (sampled)");
     if classes.lock().unwrap().len() < 4 && r.violation_count() == 0 {
         vcore::machinery_error("vacuous: fewer than 4 distinct (fault, timing, outcome) classes");
     }
